@@ -131,6 +131,9 @@ Proof.
 Qed.
 
 (* ------------------------------------------------------------------ history preservation (C13) *)
+Lemma some_pair_snd {A B} (a a' : A) (b b' : B) : Some (a, b) = Some (a', b') -> b = b'.
+Proof. intros H. inversion H. reflexivity. Qed.
+
 Section Hist.
 Variable stopf : Stats -> bool.
 
@@ -179,26 +182,70 @@ Proof.
   destruct (beta <=? - v); inversion H; subst; exact Hp.
 Qed.
 
+Lemma nm_finish_hist p ao beta ply depth in_chk best bm s v s' :
+  nm_finish p ao beta ply depth in_chk best bm s = Some (v, s') -> ss_hist s' = ss_hist s.
+Proof.
+  unfold nm_finish. destruct bm as [bmv|].
+  - destruct (tt_add (ss_tt s) (hash p) _) as [tt'|]; [|discriminate].
+    intros H. apply some_pair_snd in H. rewrite <- H. reflexivity.
+  - intros H. apply some_pair_snd in H. rewrite <- H. reflexivity.
+Qed.
+
+Lemma n_loop_hist' rec p in_chk beta ply depth : keeps_hist rec ->
+  forall ms idx s alpha best bm r,
+  n_loop rec p in_chk beta ply depth ms idx s alpha best bm = Some r -> ss_hist (snd r) = ss_hist s.
+Proof.
+  intros Hk ms idx s alpha best bm r H. destruct r as [[[a' b'] bm'] s'].
+  apply (n_loop_hist rec p in_chk beta ply depth Hk _ _ _ _ _ _ _ _ _ _ H).
+Qed.
+
+Lemma nm_moves_hist rec p s ao alpha beta ply depth in_chk is_root cn ttm v s' : keeps_hist rec ->
+  nm_moves rec p s ao alpha beta ply depth in_chk is_root cn ttm = Some (v, s') -> ss_hist s' = ss_hist s.
+Proof.
+  intros Hk H. unfold nm_moves in H.
+  destruct (null_move rec p s is_root cn in_chk beta ply depth) as [[oc s1]|] eqn:En; [|discriminate].
+  apply null_move_hist in En; [|exact Hk].
+  destruct oc as [cut|].
+  - apply some_pair_snd in H. rewrite <- H. exact En.
+  - destruct (n_loop rec p in_chk beta ply depth (sort_n p (legal_moves p) ttm) 0 s1 alpha (- INF) None) as [r|] eqn:El; [|discriminate].
+    apply n_loop_hist' in El; [|exact Hk].
+    apply nm_finish_hist in H. rewrite H, El. exact En.
+Qed.
+
+Lemma nm_prune_hist rec qrec p s ao alpha beta ply depth in_chk is_root is_pv cn ttm v s' : keeps_hist rec ->
+  nm_prune stopf rec qrec p s ao alpha beta ply depth in_chk is_root is_pv cn ttm = Some (v, s') -> ss_hist s' = ss_hist s.
+Proof.
+  intros Hk H. unfold nm_prune in H.
+  destruct (depth <=? 0).
+  - destruct (qrec p (ss_stats s) alpha beta ply) as [[v0 st]|]; [|discriminate]. inversion H; subst. reflexivity.
+  - destruct (stopf (ss_stats s) && negb (is_root && (st_depth (ss_stats s) <=? 1))); [inversion H; reflexivity|].
+    cbv zeta in H.
+    destruct (((100 <=? halfmoves p) || _) && negb is_root); [inversion H; reflexivity|].
+    destruct (negb is_pv && negb in_chk && (depth <? RFP_DEPTH) && _); [inversion H; reflexivity|].
+    apply nm_moves_hist in H; assumption.
+Qed.
+
+Lemma nm_probe_hist rec qrec p s tte alpha beta ply depth in_chk is_root is_pv cn v s' : keeps_hist rec ->
+  nm_probe stopf rec qrec p s tte alpha beta ply depth in_chk is_root is_pv cn = Some (v, s') -> ss_hist s' = ss_hist s.
+Proof.
+  intros Hk H. unfold nm_probe in H. cbv zeta in H.
+  match type of H with (if ?c then _ else _) = _ => destruct c end; [inversion H; reflexivity|].
+  match type of H with (if ?c then _ else _) = _ => destruct c end; [inversion H; reflexivity|].
+  apply nm_prune_hist in H; assumption.
+Qed.
+
+Lemma nm_body_hist rec qrec p s alpha beta ply depth cn v s' : keeps_hist rec ->
+  nm_body stopf rec qrec p s alpha beta ply depth cn = Some (v, s') -> ss_hist s' = ss_hist s.
+Proof.
+  intros Hk H. unfold nm_body in H. cbv zeta in H.
+  match type of H with match ?x with _ => _ end = _ => destruct x as [tte|]; [|discriminate] end.
+  apply nm_probe_hist in H; [|exact Hk]. exact H.
+Qed.
+
 Theorem negamax_keeps_history : forall fuel, keeps_hist (negamax stopf fuel).
 Proof.
   induction fuel as [|f IH]; intros p s a b ply d cn v s' H; [discriminate|].
-  cbn [negamax] in H.
-  set (s0 := with_stats s (set_seld (ss_stats s) (Z.max (st_seldepth (ss_stats s)) ply))) in *.
-  assert (Hs0 : ss_hist s0 = ss_hist s) by reflexivity.
-  destruct (tt_poll (ss_tt s0) (hash p)) as [tte|]; [|discriminate].
-  cbn zeta in H.
-  repeat match type of H with
-  | (if ?c then _ else _) = _ => destruct c
-  end; try (inversion H; subst; exact Hs0).
-  - destruct (qsearch f p (ss_stats s0) _ _ ply) as [[v0 st]|]; [|discriminate]. inversion H; subst. reflexivity.
-  - match type of H with match ?r with _ => _ end = _ => destruct r as [[[cut|] s1]|] eqn:En; [| |discriminate] end.
-    + apply null_move_hist in En; [|exact IH]. inversion H; subst. rewrite En. exact Hs0.
-    + apply null_move_hist in En; [|exact IH].
-      match type of H with match ?r with _ => _ end = _ => destruct r as [[[[al be] [bm|]] s2]|] eqn:El; [| |discriminate] end.
-      * apply n_loop_hist in El; [|exact IH].
-        destruct (tt_add (ss_tt s2) (hash p) _) as [tt'|]; [|discriminate].
-        inversion H; subst. cbn. rewrite El, En. exact Hs0.
-      * apply n_loop_hist in El; [|exact IH]. inversion H; subst. rewrite El, En. exact Hs0.
+  cbn [negamax] in H. apply nm_body_hist in H; [exact H|exact IH].
 Qed.
 
 (* ---- the root loop *)
